@@ -434,7 +434,7 @@ def main():
 
     if thorough:
         # unbounded number of steps: KeyOwnership as an inductive invariant of the repaired design (Apalache)
-        import subprocess, shutil
+        import subprocess
         out = os.path.join(env.WORK, 'C15', 'apalache')
         ok = []
         for args in (['--init=Init', '--length=0'], ['--init=IndInit', '--length=1']):
